@@ -1066,7 +1066,13 @@ func (c *Conn) handleBdat(arg string) {
 	// What follows the chunk, LAST or not, is a command line again.
 	c.lineLimitReader.setLimit(c.server.MaxLineLength)
 	if err != nil {
-		c.writeResponse(dataErrorToStatus(err))
+		if last && c.server.LMTP {
+			// The final response in LMTP is one reply per recipient, also
+			// when the delivery failed before the last chunk was consumed.
+			c.writeLMTPStatuses(c.bdatStatus, err)
+		} else {
+			c.writeResponse(dataErrorToStatus(err))
+		}
 
 		if err == errPanic {
 			c.Close()
@@ -1084,11 +1090,7 @@ func (c *Conn) handleBdat(arg string) {
 		err := <-c.dataResult
 
 		if c.server.LMTP {
-			c.bdatStatus.fillRemaining(err)
-			for i, rcpt := range c.recipients {
-				code, enchCode, msg := dataErrorToStatus(<-c.bdatStatus.status[i])
-				c.writeResponse(code, enchCode, "<"+rcpt+"> "+msg)
-			}
+			c.writeLMTPStatuses(c.bdatStatus, err)
 		} else {
 			c.writeResponse(dataErrorToStatus(err))
 		}
@@ -1101,6 +1103,16 @@ func (c *Conn) handleBdat(arg string) {
 		c.reset()
 	} else {
 		c.writeResponse(250, EnhancedCode{2, 0, 0}, "Continue")
+	}
+}
+
+// writeLMTPStatuses writes the final response of a chunked LMTP transfer: one
+// reply per recipient, err being the status of those the backend set none for.
+func (c *Conn) writeLMTPStatuses(status *statusCollector, err error) {
+	status.fillRemaining(err)
+	for i, rcpt := range c.recipients {
+		code, enchCode, msg := dataErrorToStatus(<-status.status[i])
+		c.writeResponse(code, enchCode, "<"+rcpt+"> "+msg)
 	}
 }
 
